@@ -115,6 +115,4 @@ func c13Erc20() types.EthAddress {
 	return *a
 }
 
-var VerifEntries = map[string]func(){
-	"VerifC13_Evidence": VerifC13_Evidence,
-}
+var _ = vEntry("VerifC13_Evidence", VerifC13_Evidence)
